@@ -243,7 +243,9 @@ func ConfirmAndReport(ctx *Ctx, rep *Report, cands []Candidate) {
 			for _, v := range last.Violations {
 				if v.ClassKey() == g.c.Violation.ClassKey() {
 					found = true
-					g.c.Violation = v
+					if len(v.Detail) >= len(g.c.Violation.Detail) {
+						g.c.Violation = v
+					}
 				}
 			}
 			if !found {
